@@ -17,6 +17,7 @@ import re
 import shutil
 import sys
 import tempfile
+import time
 import traceback
 import warnings
 
@@ -44,6 +45,8 @@ MIN_NONTRIVIAL = 200
 REQUIRED_COUNTERS = ["tracebacks_checked", "callsite_frames_checked", "python_frames_checked", "text_error_pages", "html_error_pages", "format_exceptions_pages", "warnings_cases", "multi_template_tracebacks"]
 REQUIRED_COUNTERS += ["edit_and_recompile_rounds"]
 REQUIRED_COUNTERS += ["last_line_pages"]
+RULE += " module-level warnings when an up-to-date module file is reused for a template file at another path (copied directory, second spelling of the path)."
+REQUIRED_COUNTERS += ["warning_reused_module_loads"]
 
 _st = {}
 
@@ -583,6 +586,61 @@ def run_warning_case(r, wname, action, path, nl, res):
         shutil.rmtree(d, ignore_errors=True)
 
 
+def run_warning_reused_module(res):
+    """the module file of a template is up to date and REUSED for a template file at another path - the same URI
+    served from a copied directory (times preserved) sharing the module directory, or a second spelling of one path -
+    and its module-level code warns as it is loaded: the warning is shown against the template being loaded now"""
+    import warnings as _w
+
+    T = _st["Template"]
+    L = _st["TemplateLookup"]
+    text = "first\n<%!\n    mw_ = 1\n    warn_here('planted-warning')\n%>\nbody ${mw_}\n"
+    for how in ("copied-directory-lookup", "copied-directory-template", "second-spelling"):
+        _st["n"] += 1
+        d = os.path.join(_st["tmp"], "r%d" % _st["n"])
+        r1, r2, mods = os.path.join(d, "release1"), os.path.join(d, "release2"), os.path.join(d, "mods")
+        os.makedirs(os.path.join(r1, "sub"))
+        try:
+            with open(os.path.join(r1, "page.html"), "w") as f:
+                f.write(text)
+            old = time.time() - 100
+            os.utime(os.path.join(r1, "page.html"), (old, old))
+            shutil.copytree(r1, r2)   # (copy2: the times are kept, the module file stays newer than either source)
+            if how == "second-spelling":
+                names = [os.path.join(r1, "sub", "..", "page.html"), os.path.join(r1, "page.html"), os.path.join(r1, "sub", "..", "page.html")]
+            else:
+                names = [os.path.join(r1, "page.html"), os.path.join(r2, "page.html"), os.path.join(r1, "page.html")]
+            for k, fn_ in enumerate(names):
+                res.evaluations += 1
+                res.count("warning_reused_module_loads")
+                what = "%s, load %d: template file %s, module directory shared" % (how, k + 1, fn_[len(d):])
+                with _w.catch_warnings(record=True) as rec:
+                    _w.resetwarnings()
+                    _w.simplefilter("always")
+                    try:
+                        if how == "copied-directory-lookup":
+                            t = L(directories=[os.path.dirname(fn_)], module_directory=mods, imports=IMPORTS).get_template("/page.html")
+                        else:
+                            t = T(filename=fn_, uri="/page.html", module_directory=mods, imports=IMPORTS)
+                        out = t.render_unicode()
+                    except Exception as e:
+                        res.violate("warning-case-raises", "%s: %s: %s" % (what, type(e).__name__, e))
+                        continue
+                mine = [w for w in rec if "planted-warning" in str(w.message)]
+                if out != "first\n\nbody 1\n":
+                    res.violate("warning-case-raises", "%s: rendered %r" % (what, out))
+                if len(mine) != 1:
+                    res.violate("warning-count-module-warn", "%s: shown %d times (%r), expected exactly once" % (what, len(mine), [(w.filename, w.lineno) for w in mine]))
+                    continue
+                w = mine[0]
+                if w.filename != t.filename or w.lineno != 4:
+                    res.violate("warning-filename", "%s: shown against %s:%s, the template being loaded is %s (line 4)" % (what, w.filename, w.lineno, t.filename),
+                                witness="module file generated from one template file, reused for another")
+            res.nontrivial("warning-reused-module", how)
+        finally:
+            shutil.rmtree(d, ignore_errors=True)
+
+
 def run_edit_and_recompile(res):
     """a module-directory template whose traceback (and compile warning) was already formatted once is EDITED - lines
     are inserted above the failing one - and compiled again into the same module file, in the same process: the next
@@ -689,6 +747,7 @@ def run_case(case):
         run_last_line(res)
     elif case["kind"] == "edit-recompile":
         run_edit_and_recompile(res)
+        run_warning_reused_module(res)
     elif case["kind"] == "tb" and "spec" not in case:
         r = common.rng_for(case["seed"], "c12", case["index"], case["pos"])
         for path in PATHS:
